@@ -4,7 +4,8 @@
    (notations/jschema/internal/validator: objectValidator with its set of still-required
    keys, arrayValidator with its item counter and Child(min(i,last)), literalValidator +
    checkNotAnEnum, anyNestedStructure) folded over the document value in event order;
-   it returns the library's error code of the first failing event.
+   it returns the library's error code of the first failing event (for a nullable container the
+   two-leaf outcome of Tree.FeedLeaves, see [container_mismatch]).
    [shape_ok] is the declarative statement of the property.
    No proofs in this file. *)
 From Coq Require Import List NArith Bool Arith.
@@ -84,6 +85,22 @@ Definition last_or {A} (l : list A) (i : nat) : option A :=
   | _ => nth_error l (Nat.min i (length l - 1))
   end.
 
+(* A document value of another kind at an object/array position.  Without nullable the
+   container validator is the only leaf and its "unexpected lexeme" error is reported.  With
+   nullable:true (fix 3827ce7) a null validator stands next to it (validator/list.go):
+   null is accepted; another literal fails the container leaf at LiteralBegin and the null leaf
+   at LiteralEnd with "invalid value type"; a container of the other kind fails both leaves at
+   its opening bracket, which Tree.FeedLeaves reports as ErrOrRuleSetValidation. *)
+Definition E_OR_RULE_SET : nat := 204.
+Definition container_mismatch (nullable : bool) (lex_error : nat) (v : jval) : option nat :=
+  if nullable then
+    match v with
+    | JNull => None
+    | JArr _ | JObj _ => Some E_OR_RULE_SET
+    | _ => Some E_VALUE_TYPE
+    end
+  else Some lex_error.
+
 (* validate: None = accepted, Some code = first error *)
 Fixpoint validate (n : snode) (v : jval) {struct v} : option nat :=
   let is_any := match n with SLit _ _ a | SObj _ _ a | SArr _ _ a => a end in
@@ -93,7 +110,7 @@ Fixpoint validate (n : snode) (v : jval) {struct v} : option nat :=
   | SLit k nl _ =>
     if is_container v then Some E_LEX_LITERAL
     else if lit_kind_ok k nl v then None else Some E_VALUE_TYPE
-  | SObj ms _ _ =>
+  | SObj ms nl _ =>
     match v with
     | JObj dms =>
       (fix members (dms : list (bytes * jval)) (req : list bytes) : option nat :=
@@ -109,9 +126,9 @@ Fixpoint validate (n : snode) (v : jval) {struct v} : option nat :=
              end
            end
          end) dms (required_keys ms)
-    | _ => Some E_LEX_OBJECT     (* a literal or an array where an object is expected; also null (known finding) *)
+    | _ => container_mismatch nl E_LEX_OBJECT v
     end
-  | SArr items _ _ =>
+  | SArr items nl _ =>
     match v with
     | JArr xs =>
       (fix elems (xs : list jval) (i : nat) : option nat :=
@@ -127,7 +144,7 @@ Fixpoint validate (n : snode) (v : jval) {struct v} : option nat :=
              end
            end
          end) xs 0
-    | _ => Some E_LEX_ARRAY
+    | _ => container_mismatch nl E_LEX_ARRAY v
     end
   end.
 
@@ -157,8 +174,8 @@ Fixpoint shape_ok (n : snode) (v : jval) {struct v} : bool :=
   | _, _ => false
   end.
 
-(* the known finding C01-nullable-container: a nullable object/array example rejects null.
-   [no_nullable_container n] excludes exactly the schemas on which it can show. *)
+(* [no_nullable_container n]: kept for the error-code lemmas that single out the one-leaf case
+   (before fix 3827ce7 it delimited the known finding C01-nullable-container). *)
 Fixpoint no_nullable_container (n : snode) : bool :=
   match n with
   | SLit _ _ _ => true
